@@ -89,3 +89,10 @@ claim("C12", "reference-model monitor: brute force over all tiles with shapely f
       "tiles must contain every tile sharing more than a sliver with the query and, for geometries, only tiles not disjoint from it; for each pair of tiled rasters every (destination, source) "
       "tile pair with more than a sliver of common footprint must be an edge, and rasters separated by > 2 px must give no edge and no exception. ~830 queries + 420 graphs quick.",
       _TB + " Cross-CRS bounding-box queries are skipped (a 4-point polygon by design).", "DESIGN.md 5/C12")
+
+claim("C06", "history checker over recorded PartsWriter calls (unique chunk ids, position-dependent bytes) + invariant hook on MPUChunk (byte conservation, credits, increasing ids); exhaustive merge trees; real dask under random topological orders and thread pools",
+      "Every history - the real append/merge/spill/collate/finalise operations driven over ALL binary merge trees of every generated configuration with <= 4 (quick) / 5 (thorough) partitions, "
+      "seeded random trees up to 12 partitions, and mpu_write(...).compute() under seeded random topological orders (sync) and 2-8 threads with injected writer delays - must satisfy: parts by "
+      "increasing id == header+chunks+footer, ids unique / in range / increasing, every part but the last >= min_write_sz, finalise once with exactly the written receipts in order, header/footer "
+      "callbacks saw the complete ordered (size,id) list, no exception. ~2.8e3 histories quick, 5e5 thorough.",
+      _TB + " Writers with fewer than 1 + partitions x writes_per_chunk part numbers are outside the domain.", "DESIGN.md 5/C06")
